@@ -2563,6 +2563,12 @@ class Model:
             except Exception as e:
                 raise ModelError(f"Error when initially flushing junction: {j}") from e
 
+        # The flush changes compartment sizes at the initial time, so source popsizes cached for this time index
+        # (e.g. by a program overwrite of a number-format parameter in the preceding `update_pars()`) are stale
+        for pop in self.pops:
+            for par in pop.pars:
+                par._source_popsize_cache_time = None
+
     def update_pars(self) -> None:
         """
         Update parameter values
